@@ -116,6 +116,19 @@ fn structured() -> Vec<(String, Vec<u8>)> {
         b.extend_from_slice(b"$1\r\na\r\n");
         v.push((format!("nesting depth {} (closed)", depth), b));
     }
+    // long arguments made of multi-byte characters around the lengths at which the proxy cuts,
+    // abbreviates or logs arguments (every offset of the first multi-byte character in 90..=130)
+    for (cname, ch) in [("2-byte", "\u{e9}"), ("3-byte", "\u{4e2d}"), ("4-byte", "\u{1f600}")] {
+        for lead in 90..=130usize {
+            let arg = format!("{}{}", "a".repeat(lead), ch.repeat(8));
+            v.push((format!("GET key of {} ascii bytes + {} chars", lead, cname), bulk_cmd(&[b"GET".to_vec(), arg.clone().into_bytes()])));
+            if lead % 5 == 0 {
+                v.push((format!("SET value of {} ascii bytes + {} chars", lead, cname), bulk_cmd(&[b"SET".to_vec(), b"k".to_vec(), arg.clone().into_bytes()])));
+                v.push((format!("command name of {} ascii bytes + {} chars", lead, cname), bulk_cmd(&[arg.clone().into_bytes(), b"k".to_vec()])));
+                v.push((format!("UMCTL sub-command of {} ascii bytes + {} chars", lead, cname), bulk_cmd(&[b"UMCTL".to_vec(), arg.clone().into_bytes()])));
+            }
+        }
+    }
     // truncations of a valid command at every position
     let full = bulk_cmd(&[b"SET".to_vec(), b"key".to_vec(), b"value".to_vec()]);
     for i in 0..full.len() {
@@ -310,8 +323,9 @@ async fn child_loop(family: String, start: usize, end: usize, stride: usize, tho
         for p in packets {
             outcome = "replied";
             let proxy = w.0.st.lock().unwrap().proxies.get(P).cloned().unwrap();
-            let r = p.to_resp_vec();
-            let fut = std::panic::AssertUnwindSafe(proxy.handle(r));
+            // the packet exactly as the session decoder produced it, through the real per-request
+            // session path (Session::handle_cmd, ForwardHandler, slow log)
+            let fut = std::panic::AssertUnwindSafe(proxy.handle_packet(p));
             let res = tokio::time::timeout(Duration::from_secs(100), futures::FutureExt::catch_unwind(fut)).await;
             match res {
                 Err(_) => {
